@@ -2,6 +2,7 @@
 checked against token lists regenerated from controlproto.go). Tie (b): both encoders byte-equal, both
 decoders equal on valid and concatenated streams."""
 import json
+import os as _os
 from checks import codecgen as G
 
 LEVEL = "proof"
@@ -70,6 +71,26 @@ def run(ctx):
         if res != want:
             ctx.violation("C18:sequence", f"a concatenation of {len(pick)} records does not decode to the same sequence",
                           {"records": [p[0][:200] for p in pick], "decoded": res[:600]})
+    # encoders after a failed write: a record is written to a stream that refuses it, then other records go to a healthy stream -
+    # that stream must receive exactly their encodings (nothing carried over from the failed write)
+    enc_of = dict(valid)
+    fcases, fwant = [], []
+    vs = [v for v in valid if len(v[1]) < 2000]
+    for _ in range(300 if ctx.tier == "thorough" else 80):
+        a = vs[rng.below(len(vs))]
+        later = [vs[rng.below(len(vs))] for _ in range(rng.range(1, 4))]
+        fcases.append("encfail " + a[0] + " | " + " | ".join(p[0] for p in later))
+        fwant.append("".join("" if p[1] == "-" else p[1] for p in later) or "-")
+    fpath, fout = _os.path.join(ctx.workdir, "encfail.cases"), _os.path.join(ctx.workdir, "encfail.out")
+    open(fpath, "w").write("\n".join(fcases) + "\n")
+    rcf = ctx.run_harness(exe, fpath, fout, timeout=300)
+    fres = open(fout).read().splitlines()
+    ctx.oblige("harness:encfail", rcf == 0 and len(fres) == len(fcases), ctx.harness_stderr[-200:])
+    for c, w, r in zip(fcases, fwant, fres):
+        if r != w:
+            ctx.violation("C18:stale-bytes-after-failed-write", f"after a refused write the next records were not encoded as they are on their own: {c[:160]}",
+                          {"case": c[:600], "stream_received": r[:600], "encodings_on_their_own": w[:600]})
+            break
     kinds = {}
     for r in recs:
         kinds[r.split()[0]] = kinds.get(r.split()[0], 0) + 1
